@@ -168,7 +168,7 @@ def chains(depth):
 # single-token edits
 
 SUBST = [";", "{", "}", "(", ")", ",", "[", "]", "STR", "NUM", ":is", ":foreign", "true", "keep", "foo", "not", "if", "else",
-         "ML", "text:\r\nab\r\n..c\r\n."]  # multi-line tokens as the offending token (LF and CRLF inside)
+         "ML", "text:\r\nab\r\n..c\r\n.", "GLUE:@@", "GLUE:\xff"]  # multi-line tokens as the offending token (LF and CRLF inside)
 
 
 def flatten(word):
